@@ -195,7 +195,7 @@ def rule_r4(ctx) -> RuleResult:
                 if node.func.id == "float" or bounded_digits(facts, et):
                     rr.ok(dotted, label, {"fn": dotted, "site": label})
                 else:
-                    rr.bad(Finding("C01.R4", P.PARSER, dotted, label + " after isdecimal() without a length bound",
+                    rr.bad(Finding("C01.R4", P.PARSER, dotted, "int(·) after isdecimal() without a length bound",
                                    "isdecimal() does not imply that int() succeeds: a decimal string of more than 4300 digits makes int() raise "
                                    "ValueError (sys.int_max_str_digits), and parse() raises with it", node.lineno))
             elif ("isdigit", et) in facts:
